@@ -4,6 +4,7 @@
    in-Coq vm_compute evaluation. *)
 From Lungo.Model Require Import Compare RunAccess ApiOps RunOplog RunSpec RunSort File RunMatch Fs FsRun Stream.
 From Lungo.Spec Require Import RunRef.
+From Lungo.Model Require Import Gridfs.
 Open Scope string_scope.
 
 Definition bad : string := "BAD-CASE".
@@ -38,6 +39,7 @@ Definition runners : list (sexp -> option string) :=
   ; run_fs
   ; run_stream
   ; run_sched
+  ; run_gridfs
   ].
 
 Fixpoint first_some (rs : list (sexp -> option string)) (x : sexp) : string :=
